@@ -95,16 +95,29 @@ func ParseDeviceCodeClientSecret(wwwAuthenticate string) string {
 
 // parseQuotedParam extracts a quoted parameter value (key="value") from a
 // WWW-Authenticate header value. Returns an empty string if not found.
+//
+// The parameter name is matched only at a name boundary (start of the header,
+// or after a space or comma) and never inside another parameter's quoted
+// value, so client_id is not mistaken for the tail of device_code_client_id.
 func parseQuotedParam(header, param string) string {
 	key := param + `="`
-	idx := strings.Index(header, key)
-	if idx == -1 {
-		return ""
+	for i := 0; i < len(header); i++ {
+		if (i == 0 || header[i-1] == ' ' || header[i-1] == ',') && strings.HasPrefix(header[i:], key) {
+			rest := header[i+len(key):]
+			end := strings.IndexByte(rest, '"')
+			if end == -1 {
+				return ""
+			}
+			return rest[:end]
+		}
+		if header[i] == '"' {
+			// skip a quoted value
+			end := strings.IndexByte(header[i+1:], '"')
+			if end == -1 {
+				return ""
+			}
+			i += end + 1
+		}
 	}
-	rest := header[idx+len(key):]
-	end := strings.Index(rest, `"`)
-	if end == -1 {
-		return ""
-	}
-	return rest[:end]
+	return ""
 }
